@@ -1,2 +1,2 @@
 import ScVerif.C06.Drv
-def main : IO Unit := ScVerif.Line.runDriver ScVerif.C06.handle
+def main : IO Unit := ScVerif.Line.runDriverS ([] : ScVerif.C05.Schema) ScVerif.C06.handleS
